@@ -185,3 +185,15 @@ Theorem C02_rebuild_after_clears_changes_nothing : forall c dim r k r1 es,
   exists r2, rebuild c dim es k r1 = Ok (k, r2) /\ raw_equiv r2 (rewrap k r1).
 Proof. exact rebuild_after_clears_thm. Qed.
 Print Assumptions C02_rebuild_after_clears_changes_nothing.
+
+(* the face-corner guard: regenerated when there are none or their number is not the number of face-vertex incidences;
+   hence faces appended to / removed from a re-wrapped mesh WITHOUT clearing face_corners still get their records *)
+Theorem C02_fc_regen_spec : forall nc nf, fc_regen nc nf = true <-> (nc = 0 \/ nc <> nf).
+Proof. exact fc_regen_spec. Qed.
+Print Assumptions C02_fc_regen_spec.
+
+Theorem C02_face_corners_regenerated : forall c r r', prepare c r = Ok r' ->
+  (zlen (fc_elem r) = 0 \/ zlen (fc_elem r) <> sum_len (faces r')) ->
+  combine (fc_elem r') (fc_adj r') = incidences (faces r') /\ zlen (fc_elem r') = sum_len (faces r').
+Proof. exact face_corners_regenerated. Qed.
+Print Assumptions C02_face_corners_regenerated.
